@@ -60,6 +60,70 @@ R.lemma(
     claim="j < total and j % n == j",
 )
 
+# ------------------------------------------------------------------------------------------------- add_examples: every example case is attached to the test or reported
+BLD = "schemathesis.generation.hypothesis.builder:"
+R.exception_classes.update({"HypothesisRefResolutionError": "Exception", "Unsatisfiable": "Exception", "SchemaError": "Exception",
+                            "SerializationNotPossible": "schemathesis.core.errors:SerializationNotPossible", "InvalidSchema": "schemathesis.core.errors:InvalidSchema"})
+ExCase = Obj("spec:ExampleCase", headers=OneOf(NoneT, Opq("HeaderMap")), media_type=NoneT, body=Opq("Body"))
+R.nominal_methods["spec:ExOperation"] = {"get_strategies_from_examples": lambda it, obj, a, k: ListOf(Opq("ExampleStrategy"), [0, 1, 2, 3]).make(it, it.path.fresh("example_strategies"))}
+R.contract("schemathesis.generation.hypothesis.examples:generate_one", args={"strategy": Opq("ExampleStrategy")}, returns=ExCase, trusted=True,
+           effects={"result_cases": "ghost('result_cases') + [result]"},
+           note="E2: the (single) case of an example strategy (generation errors - Unsatisfiable, SerializationNotPossible - are marks of their own: C05 run_test contracts; not examined here)")
+R.contract("schemathesis.core.marks:Mark.set", args={"self": Opq("Any"), "func": Opq("Any"), "value": Opq("Any")}, returns=NoneT, trusted=True,
+           effects={"marks": "ghost('marks') + 1"}, note="records a mark on the test function (reported by run_test, C05 contracts)")
+R.contract("schemathesis.hooks:HookDispatcher.dispatch", args={"self": Opq("Any"), "name": Str, "context": Opq("Any"), "examples": Opq("Any")}, returns=NoneT, trusted=True,
+           note="`before_add_examples` hooks (C19 contracts); assumed not to drop examples here")
+R.contract("schemathesis.hooks:HookContext", abstract_only=True, args={}, returns=Opq("HookContext"), note="dataclass constructor")
+
+
+def _bad_headers_term(it, headers):
+    import z3
+    from pyvc.values import z3_of
+
+    return z3.Function("uf:has_invalid_header", z3_of(headers).sort(), z3.BoolSort())(z3_of(headers))
+
+
+R.contract(BLD + "find_invalid_headers", args={"headers": Opq("HeaderMap")}, trusted=True,
+           returns=lambda it, env: [("X-Bad", "line\nbreak")] if it.path.branch(_bad_headers_term(it, env["headers"])) else [],
+           note="the headers that cannot be sent over HTTP (a function of the header map)")
+R.spec_funcs["unsendable"] = lambda it, e: False if e.fields["headers"] is None else __import__("pyvc.values", fromlist=["wrap"]).wrap(_bad_headers_term(it, e.fields["headers"]))
+
+
+def _example_deco(it, args, kw):
+    """E2 hypothesis.example(case=c)(test): a test that also runs c; the ghost lists the attached cases in order."""
+    from pyvc.interp import BuiltinFn
+    from pyvc.values import VObj
+
+    case = kw["case"]
+
+    def deco(it2, a, k):
+        it2.ghost["attached"] = it2.ghost["attached"] + [case]
+        return VObj(it2.resolve_class("spec:TestWithExample"), {"inner": a[0], "case": case})
+
+    return BuiltinFn("hypothesis.example(...)", deco)
+
+
+R.extern["hypothesis.example"] = _example_deco
+import z3 as _z3
+from pyvc.values import Opaque as _Opaque, ref_sort as _ref_sort
+
+R.opaque_classes["Dispatcher"] = "schemathesis.hooks:HookDispatcher"
+R.module_values[BLD.rstrip(":") + ":GLOBAL_HOOK_DISPATCHER"] = _Opaque("Dispatcher", _z3.Const("GLOBAL_HOOK_DISPATCHER", _ref_sort("Dispatcher")), "Dispatcher")
+R.contract(
+    BLD + "add_examples",
+    prop="C17",
+    args={"test": Opq("TestFunction"), "operation": Obj("spec:ExOperation", schema=Obj("spec:SchemaWithHooks", hooks=Opq("Dispatcher"))), "hook_dispatcher": NoneT},
+    ghost={"attached": [], "marks": 0, "result_cases": []},
+    ensures={
+        # each example case is attached to the test (so it is sent in the examples phase) unless it cannot be sent - and then it is reported through a mark, never dropped because of ANOTHER example
+        "every_sendable_example_is_attached": "all(any(a is e for a in ghost('attached')) for e in ghost('result_cases') if not unsendable(e))",
+        "unsendable_examples_are_reported_not_attached": "all(not any(a is e for a in ghost('attached')) for e in ghost('result_cases') if unsendable(e)) and "
+                                                         "implies(any(unsendable(e) for e in ghost('result_cases')), ghost('marks') >= 1)",
+    },
+    replayable=False,
+    bounded_note="up to 3 example cases",
+)
+
 LEVEL_TEXT = ("Deductive coverage postcondition on the real combination generators for example lists up to a stated size (labelled bounded), plus the round-robin "
               "arithmetic lemma for all sizes; extraction of examples from the document is not decided here.")
 LEVEL_NOTE = "Trusted: itertools cycle/islice (E5), fill-in generation (E1/E2), pyvc semantics (E9)."
